@@ -22,6 +22,9 @@ UBSAN = "signed-integer-overflow,shift,bounds,null,pointer-overflow,integer-divi
 PROFILES = {
     "asan": ("clang", ["-O1", "-g", "-fsanitize=address," + UBSAN, "-fsanitize-recover=all",
                        "-fno-omit-frame-pointer", "-fno-optimize-sibling-calls", "-fno-builtin"]),
+    # MemorySanitizer: library, harness and engine are all instrumented; libc goes through the runtime's interceptors
+    "msan": ("clang", ["-O0", "-g", "-fsanitize=memory", "-fsanitize-recover=memory", "-fsanitize-memory-track-origins=1",
+                       "-fno-omit-frame-pointer", "-fno-optimize-sibling-calls"]),
     "plain0": ("gcc", ["-O0", "-g"]),
     "plain2": ("gcc", ["-O2", "-g"]),
 }
@@ -154,6 +157,8 @@ def build_harness(name, profile, sources, exclude=(), wraps=(), cflags=(), inclu
             objs.append(f.result())
     libobjs = [o for s, o in sorted(lib.items()) if s not in exclude]
     exe = os.path.join(outdir, name)
+    if profile == "msan":
+        wraps = list(wraps) + [w for w in ("getservbyname", "getprotobyname") if w not in wraps]      # engine/mc.c: results of uninstrumented lookups are initialised
     wrapflags = ["-Wl,--wrap=%s" % w for w in (["exit"] + list(wraps))]
     sanit = [f for f in pf if f.startswith("-fsanitize")]
     cmd = [cc] + sanit + ["-g"] + objs + libobjs + wrapflags + list(libs) + ["-o", exe]
